@@ -441,9 +441,18 @@ class StdInquiry(StructFormat):
         ("clocking", 56, 3, 2), ("qas", 56, 1, 1), ("ius", 56, 0, 1),
     ], 96)
 
+    TOTALS = [36, 36, 37, 56, 57, 58, 74, 96, 96, 96]
+
     def fix(self, v, rng):
-        v["additional_length"] = 96 - 5
+        v["_total"] = rng.choice(self.TOTALS)
+        v["additional_length"] = v["_total"] - 5
+        if v["_total"] < 57:
+            for k in ("clocking", "qas", "ius"):
+                v[k] = 0  # not transmitted
         return v
+
+    def encode(self, v):
+        return bytes(self.st.encode(v))[: v["_total"]]
 
     def decode_kwargs(self, v):
         return {"evpd": 0}
@@ -1283,7 +1292,9 @@ class ReadCdF(Format):
         return out
 
     def decode_kwargs(self, v):
-        return {"lba": v["_lba"], "tl": v["_tl"], "est": v["_est"], "mcsb": v["_mcsb"], "c2ei": v["_c2ei"], "scsb": v["_scsb"]}
+        kw = {"lba": v["_lba"], "tl": v["_tl"], "est": v["_est"], "mcsb": v["_mcsb"], "c2ei": v["_c2ei"], "scsb": v["_scsb"]}
+        # optional arguments left at their documented default (0) are omitted, as a caller would
+        return {k: x for k, x in kw.items() if x or k in ("lba", "tl")}
 
     def expect(self, v):
         e = {}
